@@ -183,8 +183,7 @@ func cmdHistory(prop string, n int, seed uint64, driver, out string) (*Result, e
 	if len(steps) > 0 {
 		res.Samples = append(res.Samples, map[string]interface{}{"history": 0, "first_step": describeCase(steps[0].c), "outcome": steps[0].long.String()})
 	}
-	writeKernelSample(out, lines, answers, 30)
-	res.KernelCases = min(30, len(lines))
+	res.KernelCases = writeKernelSample(out, lines, answers, 30)
 	return res, nil
 }
 
